@@ -398,7 +398,7 @@ impl Check for TCheck {
     fn runs(&self, tier: Tier) -> u64 {
         match tier {
             Tier::Quick => 30_000,
-            Tier::Thorough => 1_500_000,
+            Tier::Thorough => 600_000,
         }
     }
     fn generate(&self, run_seed: u64, _index: u64, tier: Tier) -> Case {
